@@ -2,6 +2,13 @@
 
 #include <random>
 
+#ifdef DSPLIB_VERIF
+#include <dsplib/verif_hooks.h>
+#define DSPLIB_VERIF_YIELD_RNG() ::dsplib::verif::yield(10, nullptr)
+#else
+#define DSPLIB_VERIF_YIELD_RNG()
+#endif
+
 namespace dsplib {
 
 namespace {
@@ -13,6 +20,7 @@ thread_local std::mt19937 g_engine{0};
 
 //-------------------------------------------------------------------------------------------------
 void rng(int seed) {
+    DSPLIB_VERIF_YIELD_RNG();
     g_engine.seed(seed);
 }
 
@@ -28,6 +36,7 @@ arr_int randi(int imax, int n) {
 
 //-------------------------------------------------------------------------------------------------
 int randi(std::array<int, 2> range) {
+    DSPLIB_VERIF_YIELD_RNG();
     const int imin = range[0];
     const int imax = range[1];
     std::uniform_int_distribution<int> dist(imin, imax);
@@ -36,6 +45,7 @@ int randi(std::array<int, 2> range) {
 
 //-------------------------------------------------------------------------------------------------
 arr_int randi(std::array<int, 2> range, int n) {
+    DSPLIB_VERIF_YIELD_RNG();
     const int imin = range[0];
     const int imax = range[1];
     std::uniform_int_distribution<int> dist(imin, imax);
@@ -48,6 +58,7 @@ arr_int randi(std::array<int, 2> range, int n) {
 
 //-------------------------------------------------------------------------------------------------
 arr_real rand(int n) {
+    DSPLIB_VERIF_YIELD_RNG();
     arr_real r(n);
     std::uniform_real_distribution<real_t> dist{0, 1};
     for (int i = 0; i < n; ++i) {
@@ -58,12 +69,14 @@ arr_real rand(int n) {
 
 //-------------------------------------------------------------------------------------------------
 real_t rand() {
+    DSPLIB_VERIF_YIELD_RNG();
     std::uniform_real_distribution<real_t> dist{0, 1};
     return dist(g_engine);
 }
 
 //-------------------------------------------------------------------------------------------------
 arr_real rand(std::array<real_t, 2> range, int n) {
+    DSPLIB_VERIF_YIELD_RNG();
     arr_real r(n);
     std::uniform_real_distribution<real_t> dist{range[0], range[1]};
     for (int i = 0; i < n; ++i) {
@@ -74,6 +87,7 @@ arr_real rand(std::array<real_t, 2> range, int n) {
 
 //-------------------------------------------------------------------------------------------------
 arr_real randn(int n) {
+    DSPLIB_VERIF_YIELD_RNG();
     arr_real r(n);
     std::normal_distribution<real_t> dist{0, 1};
     for (int i = 0; i < n; ++i) {
@@ -84,6 +98,7 @@ arr_real randn(int n) {
 
 //-------------------------------------------------------------------------------------------------
 real_t randn() {
+    DSPLIB_VERIF_YIELD_RNG();
     std::normal_distribution<real_t> dist{0, 1};
     return dist(g_engine);
 }
